@@ -1,6 +1,7 @@
 package main
 
 import (
+	"regexp"
 	"fmt"
 	"go/ast"
 	"go/token"
@@ -36,6 +37,7 @@ func init() {
 			{Name: "dpkg-eof-drops-last", File: "extractor/filesystem/os/dpkg/dpkg.go", Old: "				// We might still have one more line of data\n				// so return only after it's been parsed.\n				eof = true", New: "				break", Rule: "D2-pending-record", Site: "dpkg"},
 			{Name: "nuget-dedupe-by-name", File: "extractor/filesystem/language/dotnet/packageslockjson/packageslockjson.go", Old: "		for pkgName, info := range packages {\n", New: "		for pkgName, info := range packages {\n			if len(res) > 0 && res[len(res)-1].Name == pkgName {\n				continue\n			}\n", Rule: "D3-omissions", Site: "packageslockjson"},
 			{Name: "dpkg-status-filter-removed", File: "extractor/filesystem/os/dpkg/dpkg.go", Old: "			if !installed {\n				continue\n			}\n", New: "			_ = installed\n", Rule: "D3-omissions", Site: "dpkg"},
+			{Name: "gomod-117-boundary", File: "extractor/filesystem/language/golang/gomod/gomod.go", Old: "version.Compare(\"go\"+goVersion, \"go1.17\") >= 0", New: "version.Compare(\"go\"+goVersion, \"go1.17\") > 0", Rule: "D3-omissions", Site: "gomod.Extract:go.sum-merge"},
 			{Name: "cargo-skip-empty-version", File: "extractor/filesystem/language/rust/cargolock/cargolock.go", Old: "	for _, lockPackage := range parsedLockfile.Packages {\n", New: "	for _, lockPackage := range parsedLockfile.Packages {\n		if lockPackage.Version == \"\" {\n			continue\n		}\n", Rule: "D3-omissions", Site: "cargolock"},
 		},
 	})
@@ -48,14 +50,103 @@ var renderDepth = 3
 // renderAllocs: render a once-assigned local by its value (off for the frozen C03 table).
 var renderAllocs = false
 
-func renderValue(v ssa.Value, d int) string {
+// renderEnv: while the body of a one-expression helper is rendered in place of a call to it, its
+// parameters stand for the call's arguments (innermost frame last).
+type renderFrame struct {
+	fn   *ssa.Function
+	args []ssa.Value
+}
+
+var renderEnv []renderFrame
+
+// unfoldable: a first-party function whose whole body is "return <expression>" — one block, no
+// stores or other effects of its own. A call to it is rendered as that expression, so that moving a
+// condition into such a helper (or back) leaves the rendering unchanged.
+func unfoldable(c *ssa.Call) *ssa.Function {
+	cal := c.Call.StaticCallee()
+	if cal == nil || len(cal.Blocks) != 1 || len(cal.FreeVars) > 0 || cal.Pkg == nil || c.Call.IsInvoke() {
+		return nil
+	}
+	if !strings.HasPrefix(cal.Pkg.Pkg.Path(), "github.com/google/osv-scalibr") {
+		return nil
+	}
+	if len(cal.Params) != len(c.Call.Args) || cal.Signature.Variadic() {
+		return nil
+	}
+	for _, fr := range renderEnv {
+		if fr.fn == cal {
+			return nil
+		}
+	}
+	if len(renderEnv) >= 3 {
+		return nil
+	}
+	for _, in := range cal.Blocks[0].Instrs {
+		switch x := in.(type) {
+		case *ssa.Store:
+			// spilling a parameter into its own local is the only store allowed
+			if _, isParam := x.Val.(*ssa.Parameter); !isParam {
+				return nil
+			}
+			if _, isAlloc := x.Addr.(*ssa.Alloc); !isAlloc {
+				return nil
+			}
+		case *ssa.MapUpdate, *ssa.Send, *ssa.Go, *ssa.Defer, *ssa.Panic, *ssa.RunDefers:
+			return nil
+		case *ssa.Return:
+			if len(x.Results) != 1 {
+				return nil
+			}
+		}
+	}
+	return cal
+}
+
+func renderValue(v ssa.Value, d int) string { return renderValue1(v, d) }
+
+// oneGroup: s is a single ‹…› group (so wrapping it again would add nothing).
+func oneGroup(s string) bool {
+	if !strings.HasPrefix(s, "‹") || !strings.HasSuffix(s, "›") {
+		return false
+	}
+	depth := 0
+	rs := []rune(s)
+	for i, c := range rs {
+		switch c {
+		case '‹':
+			depth++
+		case '›':
+			depth--
+			if depth == 0 && i != len(rs)-1 {
+				return false
+			}
+		}
+	}
+	return depth == 0
+}
+
+func renderValue1(v ssa.Value, d int) string {
 	if d > renderDepth {
 		return "…"
 	}
 	switch x := v.(type) {
 	case *ssa.Const:
+		if t := unaliasOwn(x.Type()); t != x.Type() {
+			return ssa.NewConst(x.Value, t).String()
+		}
 		return x.String()
 	case *ssa.Parameter:
+		if n := len(renderEnv); n > 0 && renderEnv[n-1].fn == x.Parent() {
+			fr := renderEnv[n-1]
+			for i, p := range fr.fn.Params {
+				if p == x {
+					renderEnv = renderEnv[:n-1]
+					out := renderValue1(fr.args[i], d)
+					renderEnv = append(renderEnv, fr)
+					return out
+				}
+			}
+		}
 		for i, p := range x.Parent().Params {
 			if p == x {
 				return fmt.Sprintf("param%d", i)
@@ -67,7 +158,7 @@ func renderValue(v ssa.Value, d int) string {
 		return x.Name()
 	case *ssa.UnOp:
 		if x.Op == token.MUL {
-			return renderValue(x.X, d+1)
+			return renderValue(x.X, d) // a load does not count as a level: spilled and unspilled values render alike
 		}
 		return x.Op.String() + renderValue(x.X, d+1)
 	case *ssa.FieldAddr:
@@ -81,14 +172,27 @@ func renderValue(v ssa.Value, d int) string {
 			return renderValue(x.X, d+1) + "." + st.Field(x.Field).Name()
 		}
 	case *ssa.IndexAddr:
+		if isLoopCursor(x.Index) {
+			return renderValue(x.X, d+1) + "[ι]"
+		}
 		return renderValue(x.X, d+1) + "[" + renderValue(x.Index, d+1) + "]"
 	case *ssa.Index:
+		if isLoopCursor(x.Index) {
+			return renderValue(x.X, d+1) + "[ι]"
+		}
 		return renderValue(x.X, d+1) + "[" + renderValue(x.Index, d+1) + "]"
 	case *ssa.Lookup:
 		return renderValue(x.X, d+1) + "[" + renderValue(x.Index, d+1) + "]"
 	case *ssa.Extract:
 		return renderValue(x.Tuple, d+1) + fmt.Sprintf("#%d", x.Index)
 	case *ssa.Call:
+		if cal := unfoldable(x); cal != nil {
+			ret := cal.Blocks[0].Instrs[len(cal.Blocks[0].Instrs)-1].(*ssa.Return)
+			renderEnv = append(renderEnv, renderFrame{cal, x.Call.Args})
+			out := renderValue1(ret.Results[0], d)
+			renderEnv = renderEnv[:len(renderEnv)-1]
+			return out
+		}
 		rf := refOf(x.Common())
 		var as []string
 		if x.Call.IsInvoke() {
@@ -120,7 +224,7 @@ func renderValue(v ssa.Value, d int) string {
 				}
 			}
 			if n == 1 {
-				return "‹" + renderValue(sv, d+1) + "›"
+				return renderValue(sv, d)
 			}
 		}
 		return "local:" + typeShort(x.Type())
@@ -140,7 +244,19 @@ func renderValue(v ssa.Value, d int) string {
 	return fmt.Sprintf("%T", v)
 }
 
+// unaliasOwn looks through the type aliases the normalisation (inline.go) introduces.
+func unaliasOwn(t types.Type) types.Type {
+	for {
+		a, ok := t.(*types.Alias)
+		if !ok || !strings.HasPrefix(a.Obj().Name(), "ſ") {
+			return t
+		}
+		t = a.Rhs()
+	}
+}
+
 func typeShort(t types.Type) string {
+	t = unaliasOwn(t)
 	return types.TypeString(t, func(p *types.Package) string { return p.Name() })
 }
 
@@ -271,12 +387,157 @@ func loopSkips(fn *ssa.Function, progress func(ssa.Instruction) bool) []string {
 				k = 1
 			}
 			_ = ifi
-			out = append(out, renderSkipDecision(bb, k))
+			out = append(out, rangeEnd(bb, renderSkipDecision(bb, k)))
 		}
 	}
 	sort.Strings(out)
 	return out
 }
+
+// isLoopCursor: idx is "the current position" of a loop that visits every position from the first —
+// the range form (counter φ starts at -1, the body indexes with φ+1) or the index form (counter φ
+// starts at 0, steps by one, the body indexes with φ). Both are rendered as [ι].
+func isLoopCursor(idx ssa.Value) bool {
+	stepOf := func(ph *ssa.Phi) (init int64, ok bool) {
+		var nInit, nStep int
+		for _, e := range ph.Edges {
+			if k, isK := constInt(e); isK {
+				if nInit > 0 && k != init {
+					return 0, false
+				}
+				init = k
+				nInit++
+				continue
+			}
+			add, isAdd := e.(*ssa.BinOp)
+			if !isAdd || add.Op != token.ADD || add.X != ssa.Value(ph) {
+				return 0, false
+			}
+			if k, isK := constInt(add.Y); !isK || k != 1 {
+				return 0, false
+			}
+			nStep++
+		}
+		return init, nInit == 1 && nStep >= 1
+	}
+	if ph, ok := idx.(*ssa.Phi); ok {
+		init, ok := stepOf(ph)
+		return ok && init == 0
+	}
+	if add, ok := idx.(*ssa.BinOp); ok && add.Op == token.ADD {
+		if k, isK := constInt(add.Y); isK && k == 1 {
+			if ph, ok := add.X.(*ssa.Phi); ok {
+				init, ok := stepOf(ph)
+				return ok && init == -1
+			}
+		}
+	}
+	return false
+}
+
+// loopScansAll: hdr is the head of a loop that visits every position of a collection from the first to
+// the last — `for i, x := range xs` or `for i := 0; i < len(xs); i++` with no other change of i.
+// Returns the collection (the operand of len) and the value that indexes it in the body.
+func loopScansAll(hdr *ssa.BasicBlock) (coll, cursor ssa.Value, ok bool) {
+	ifi := blockIf(hdr)
+	if ifi == nil {
+		return nil, nil, false
+	}
+	bo, isB := ifi.Cond.(*ssa.BinOp)
+	if !isB || bo.Op != token.LSS || !isLoopCursor(bo.X) {
+		return nil, nil, false
+	}
+	ctr := bo.X
+	if add, isAdd := ctr.(*ssa.BinOp); isAdd {
+		ctr = add.X
+	}
+	if ph, isPhi := ctr.(*ssa.Phi); !isPhi || ph.Block() != hdr {
+		return nil, nil, false
+	}
+	lc, isC := bo.Y.(*ssa.Call)
+	if !isC {
+		return nil, nil, false
+	}
+	if bi, isBi := lc.Call.Value.(*ssa.Builtin); !isBi || bi.Name() != "len" {
+		return nil, nil, false
+	}
+	return lc.Call.Args[0], bo.X, true
+}
+
+// fullScanElement: v is the current element of such a loop — xs[cursor], loaded or not — and xs is the
+// very collection whose length bounds the loop. Returns the collection.
+func fullScanElement(v ssa.Value) (ssa.Value, bool) {
+	if u, ok := v.(*ssa.UnOp); ok && u.Op == token.MUL {
+		v = u.X
+	}
+	var x, idx ssa.Value
+	switch e := v.(type) {
+	case *ssa.IndexAddr:
+		x, idx = e.X, e.Index
+	case *ssa.Index:
+		x, idx = e.X, e.Index
+	default:
+		return nil, false
+	}
+	if !isLoopCursor(idx) {
+		return nil, false
+	}
+	ctr := idx
+	if add, isAdd := ctr.(*ssa.BinOp); isAdd {
+		ctr = add.X
+	}
+	ph, isPhi := ctr.(*ssa.Phi)
+	if !isPhi {
+		return nil, false
+	}
+	coll, cursor, ok := loopScansAll(ph.Block())
+	if !ok || cursor != idx {
+		return nil, false
+	}
+	if coll != x && renderValueDeep(coll) != renderValueDeep(x) {
+		return nil, false
+	}
+	return x, true
+}
+
+// rangeEnd: the loop head's own "collection exhausted" test — `for _, x := range xs`,
+// `for i := range xs` and `for i := 0; i < len(xs); i++` all compare the loop counter (or counter+1)
+// with len(xs) — is rendered in one canonical form, "range-end: <xs>".
+func rangeEnd(b *ssa.BasicBlock, rendered string) string {
+	ifi := blockIf(b)
+	if ifi == nil {
+		return rendered
+	}
+	bo, ok := ifi.Cond.(*ssa.BinOp)
+	if !ok || bo.Op != token.LSS {
+		return rendered
+	}
+	// left: a counter phi of this very block, or phi+1
+	ctr := bo.X
+	if add, ok := ctr.(*ssa.BinOp); ok && add.Op == token.ADD {
+		if k, isK := constInt(add.Y); isK && k == 1 {
+			ctr = add.X
+		}
+	}
+	ph, isPhi := ctr.(*ssa.Phi)
+	if !isPhi || ph.Block() != b {
+		return rendered
+	}
+	lc, ok := bo.Y.(*ssa.Call)
+	if !ok {
+		return rendered
+	}
+	bi, ok := lc.Call.Value.(*ssa.Builtin)
+	if !ok || bi.Name() != "len" {
+		return rendered
+	}
+	if m := rangeEndRe.FindStringSubmatch(rendered); m != nil {
+		return "range-end: " + m[1]
+	}
+	return rendered
+}
+
+var rangeEndRe = regexp.MustCompile(`^builtin\.len\((.*)\) <= (?:\(φ:int\+1:int\)|φ:int)$`)
 
 // renderSkipDecision renders the decision taken on successor k of bb together with the conditions
 // of the short-circuit / nested-if chain that leads to bb: a predecessor whose other successor is
@@ -339,6 +600,16 @@ var c03Predicates = map[string]string{
 	"extractor/filesystem/language/python/requirements.isValidPackage": "atoms=[regexp.Regexp.MatchString(reValidPkg,param0)] table=01",
 }
 
+// c03GoSumDecisions: the decisions after which gomod.Extract no longer reads go.sum.
+var c03GoSumDecisions = []string{
+	// no go directive: treated like a recent go version (indirect requirements are listed in go.mod)
+	"\"\":github.com/google/osv-scalibr/extractor/filesystem/language/golang/gomod.goVersion == extractor/filesystem/language/golang/gomod.Extractor.extractGoMod(param0,param2)#1",
+	// go >= 1.17 lists indirect requirements in go.mod itself
+	"0:int <= go/version.Compare((\"go\":github.com/google/osv-scalibr/extractor/filesystem/language/golang/gomod.goVersion+extractor/filesystem/language/golang/gomod.Extractor.extractGoMod(param0,param2)#1),\"go1.17\":string)",
+	// go.mod itself could not be parsed
+	"extractor/filesystem/language/golang/gomod.Extractor.extractGoMod(param0,param2)#2 != nil:error",
+}
+
 func runC03(p *Prog, r *Report) {
 	r.Rule("D1-scanner-err", "Scan()==false is followed by Err() whose result reaches the returned error")
 	r.Rule("D2-pending-record", "a record pending at end of input is still processed")
@@ -349,12 +620,22 @@ func runC03(p *Prog, r *Report) {
 	c03Pending(p, r)
 	learn := os.Getenv("SCALINT_LEARN") != ""
 	c03Omissions(p, r, "D3-omissions", fns)
+	// go.mod: the packages of go.sum are merged in exactly when the file's go directive is below 1.17
+	if fn := p.Func("extractor/filesystem/language/golang/gomod", "Extractor.Extract"); fn != nil {
+		frozenFnSkips(p, r, "D3-omissions", "gomod.Extract:go.sum-merge", fn, func(in ssa.Instruction) bool {
+			c, ok := in.(*ssa.Call)
+			return ok && refOf(c.Common()).Name == "extractFromSum"
+		}, c03GoSumDecisions, "GOSUM", "go.sum is consulted (or left out) for other go versions than the audited ones: modules are invented for go.mod files that list their indirect requirements themselves, or dropped for those that do not")
+	} else {
+		r.Undecided("D3-omissions", "anchor:gomod.Extract", "-", "not found")
+	}
 	// helper predicates that decide those branches: frozen truth tables
 	r.Rule("D3-predicates", "boolean helpers deciding a branch of a package loop compute the audited function of their atomic tests")
 	npred := 0
 	seenPred := map[string]bool{}
 	for _, fn := range fns {
-		if len(loopSkips(fn, isPackageAppend)) == 0 {
+		skips := loopSkips(fn, isPackageAppend)
+		if len(skips) == 0 {
 			continue
 		}
 		for _, h := range conditionHelpers(p, fn) {
@@ -375,6 +656,18 @@ func runC03(p *Prog, r *Report) {
 			want, listed := c03Predicates[key]
 			switch {
 			case !listed:
+				// only a helper that decides an omission needs an audited table; one that decides
+				// something else inside the loop (an annotation, a log line) does not
+				decides := false
+				for _, row := range skips {
+					if strings.Contains(row, key+"(") {
+						decides = true
+					}
+				}
+				if !decides {
+					npred--
+					continue
+				}
 				r.Fail("D3-predicates", key, p.Pos(h.Pos()), "a boolean helper that decides whether a record is reported is not in the audited predicate table: "+sig)
 			case want != sig:
 				r.Fail("D3-predicates", key, p.Pos(h.Pos()), "the helper no longer computes the audited boolean function of its tests (e.g. a negation slipped over a disjunction makes a filter accept everything): got "+sig+", audited "+want)
@@ -587,7 +880,7 @@ func c03Omissions(p *Prog, r *Report, rule string, fns []*ssa.Function) {
 			wantN[s]++
 		}
 		for s, n := range got {
-			if n > wantN[s] {
+			if _, audited := wantN[s]; !audited && n > 0 {
 				r.Fail(rule, key+":new:"+short(s, 120), p.Pos(fn.Pos()), "a decision that makes the current record/element impossible to report is not among the audited omissions of this format: "+s+" (an added filter, de-duplication or early exit drops or merges packages)")
 			} else {
 				r.OK(rule, key+":"+short(s, 120), p.Pos(fn.Pos()), "audited omission")
